@@ -219,6 +219,9 @@ def env_jobs(pid, tier, seed):
         return [envjob("env-batches", 0, seed, n(1200, 30000), maxbatch=6, rounds=6),
                 envjob("menv-batches", 1, seed + 1, n(1200, 30000), maxbatch=7, rounds=5),
                 envjob("env-bigstep-smallbatch", 0, seed + 2, n(600, 10000), maxbatch=3, rounds=8, smallstep=1)]
+    if pid == "C05":
+        return [envjob("env-overfull", 0, seed + 11, n(900, 20000), maxbatch=8, rounds=6, smallstep=1),
+                envjob("menv-overfull", 1, seed + 12, n(700, 15000), maxbatch=8, rounds=5, smallstep=1)]
     if pid == "C10":
         return [envjob("env-submissions", 0, seed, n(1200, 30000), maxbatch=9, rounds=5),
                 envjob("menv-submissions", 1, seed + 1, n(1200, 30000), maxbatch=9, rounds=5)]
@@ -236,7 +239,7 @@ def env_jobs(pid, tier, seed):
     return []
 
 
-ENV_MON = {"C08": 8, "C10": 10, "C11": 11, "C14": 14}
+ENV_MON = {"C08": 8, "C05": 8, "C10": 10, "C11": 11, "C14": 14}
 ECATS = {8: "book observations (orders, trades, market data, arrival times)", 32: "level-2 snapshot handed to agents",
          64: "per-step traded volumes", 128: "recorded series", 256: "generator state"}
 
@@ -255,13 +258,13 @@ def classify_env(pid, r, after_resched=False):
         return "concrete" if ENV_MON.get(pid) == r[1] else None
     if k == 7:
         if r[1] == 0:              # no schedule of the batch explains what the step did
-            return "concrete" if pid in ("C08", "C14") else ("tie" if pid == "C15" else None)
+            return "concrete" if pid in ("C08", "C14", "C05") else ("tie" if pid == "C15" else None)
         return "tie" if pid == "C15" else None
     if k in (2, 3):
         if after_resched and pid != "C15":
             return None
         cats = r[1] if len(r) > 1 else 0
-        proj = {"C08": 8 | 64 | 256, "C10": 8 | 32 | 64 | 128, "C11": 64 | 128 | 32, "C14": 8 | 64, "C15": 8 | 256}.get(pid, 511)
+        proj = {"C08": 8 | 64 | 256, "C05": 8 | 64, "C10": 8 | 32 | 64 | 128, "C11": 64 | 128 | 32, "C14": 8 | 64, "C15": 8 | 256}.get(pid, 511)
         if not (k == 2 or cats & proj):
             return None
         return "tie"
@@ -289,9 +292,9 @@ RULE_ENV = ("scripts = seeded random rounds of submissions (limit/market orders,
             "operation, monitors run on the implementation's observations. non-trivial = a script with at least one step that carried >= 2 instructions.")
 
 
-def run_env_property(ctx, theorem_file):
+def run_env_property(ctx, theorem_file, proof=True):
     pid = ctx.pid
-    if os.environ.get("VERIF_NO_PROOF") != "1":
+    if proof and os.environ.get("VERIF_NO_PROOF") != "1":
         common.proof_obligations(ctx, theorem_file)
     jobs = env_jobs(pid, ctx.tier, ctx.seed)
     reports, stats = common.run_jobs(ctx, jobs)
@@ -574,12 +577,22 @@ def run_c07(ctx):
     return 1 if ctx.violations else rc
 
 
+def run_c05(ctx):
+    """C05 = the book-level tie histories plus environment steps that carry more instructions than the step size."""
+    rc_env = run_env_property(ctx, "Properties/C05.v", proof=False)
+    keep = ("evaluations", "distinct_nontrivial", "rule", "samples", "operations_compared", "jobs", "reports_total",
+            "implementation_panics_observed", "traces_validated_against_impl")
+    ctx.coverage["environment_overfull_steps"] = {k: ctx.coverage.pop(k) for k in keep if k in ctx.coverage}
+    rc_book = run_book_property(ctx, "Properties/C05.v")
+    return 1 if (rc_env or rc_book or ctx.violations) else 0
+
+
 PROPS = {
     "C01": lambda ctx: run_book_property(ctx, "Properties/C01.v"),
     "C02": lambda ctx: run_book_property(ctx, "Properties/C02.v"),
     "C03": lambda ctx: run_book_property(ctx, "Properties/C03.v"),
     "C04": lambda ctx: run_book_property(ctx, "Properties/C04.v"),
-    "C05": lambda ctx: run_book_property(ctx, "Properties/C05.v"),
+    "C05": run_c05,
     "C06": lambda ctx: run_book_property(ctx, "Properties/C06.v"),
     "C07": run_c07,
     "C08": lambda ctx: run_env_property(ctx, "Properties/C08.v"),
